@@ -78,7 +78,7 @@ def _type_xml(t, slots=()):
     if t.get("implements"):
         a += ' implements="%s"' % t["implements"]
     out = ["  <sectiontype%s>" % a]
-    if not t.get("extends"):
+    if not t.get("extends") and not t.get("bare"):
         out.append('    <key name="v" datatype="integer" default="0"/>')
     for s in slots:
         out.append("  " + _slot_xml(s))
@@ -459,6 +459,18 @@ def generate(rng, tier, index):
     if npk and rng.random() < 0.15 and not any(
             c["broken"] for c in plan["components"].values()):
         plan["schema_imports"] = ["zcsim_p%d" % (npk - 1)]
+    for t_ in plan["types"] + comp_types:
+        # a section type with an empty body (nothing but the type itself)
+        if t_["name"] != "box" and not t_.get("extends") \
+                and rng.random() < 0.15:
+            t_["bare"] = True
+    if "zcsim_ptw" in plan["components"]:
+        # the same-named types of the twin have the same kind of body
+        for a_, b_ in zip(plan["components"]["zcsim_p0"]["types"],
+                          plan["components"]["zcsim_ptw"]["types"]):
+            b_.pop("bare", None)
+            if a_.get("bare"):
+                b_["bare"] = True
     plan["explicit_file"] = rng.random() < 0.4
     for c in plan["components"].values():
         c["explicit_file"] = rng.random() < 0.4
@@ -516,6 +528,19 @@ def _gen_header(rng, plan, ctype, all_types, names, used):
     slots = plan["slots"].get(ctype, ())
     fixed = {s["name"] for s in slots if s["name"] not in ("*", "+")}
     form = rng.choice(["empty", "long", "long-v"])
+
+    def has_v(tn):
+        """Does type tn (or what it extends) declare the key 'v'?"""
+        seen = 0
+        while tn and seen < 10:
+            tt = [x for x in all_types if x["name"] == tn]
+            if not tt:
+                return True
+            if not tt[0].get("extends"):
+                return not tt[0].get("bare")
+            tn = tt[0]["extends"]
+            seen += 1
+        return True
     good = [s for s in slots if s["type"] != "box"
             and _admitted(plan, s, all_types)
             and not (s["kind"] == "section" and id(s) in used)]
@@ -531,6 +556,8 @@ def _gen_header(rng, plan, ctype, all_types, names, used):
             name = None
         if s["kind"] == "section":
             used.add(id(s))
+        if form == "long-v" and not has_v(tname):
+            form = "long"
         if rng.random() < 0.1:
             tname = tname.upper()
         return {"op": "sect", "type": tname, "name": name, "form": form}
@@ -561,6 +588,8 @@ def _gen_header(rng, plan, ctype, all_types, names, used):
         else:
             name = "n%d" % len(names)
             names.append(name)
+    if form == "long-v" and not has_v(tname):
+        form = "long"
     return {"op": "sect", "type": tname, "name": name, "form": form}
 
 
